@@ -394,6 +394,28 @@ fn mutate(prog: &Program, class: Class, target: usize) -> Option<Program> {
     None
 }
 
+/// The program with its definitions in reverse order, and with all declarations in reverse order.
+fn reorderings(prog: &Program) -> Vec<(&'static str, Program)> {
+    let mut out = Vec::new();
+    let defs: Vec<Declaration> = prog.declarations.iter().filter(|d| matches!(d, Declaration::Def(_))).cloned().collect();
+    if defs.len() >= 2 {
+        let mut p = prog.clone();
+        let mut rev = defs.into_iter().rev();
+        for d in &mut p.declarations {
+            if matches!(d, Declaration::Def(_)) {
+                *d = rev.next().unwrap();
+            }
+        }
+        out.push(("reversed-definitions", p));
+    }
+    if prog.declarations.len() >= 2 {
+        let mut p = prog.clone();
+        p.declarations.reverse();
+        out.push(("reversed-declarations", p));
+    }
+    out
+}
+
 /// Program-level edits (duplicate declarations / parameters).
 fn program_level(prog: &Program) -> Vec<(&'static str, Program)> {
     let mut out = Vec::new();
@@ -530,6 +552,24 @@ pub fn check_base(case: &FunCase, rep: &mut Report) {
         Err(e) => {
             rep.violation("check-panic".to_string(), format!("{}: {e:?}", case.name), json!({"kind": "tc-accept", "name": case.name, "source": case.src}));
             return;
+        }
+    }
+    // (+) the order of declarations is immaterial: the same program with its definitions reversed,
+    // and with all declarations reversed, must be accepted as well (instances of types are created
+    // on demand while checking; nothing may depend on what was checked earlier)
+    for (label, reordered) in reorderings(&parsed) {
+        rep.count("cases", 1);
+        rep.count("evaluations", 1);
+        match guarded("check", || reordered.clone().check()) {
+            Ok(Ok(_)) => rep.count("accepted_reordered", 1),
+            Ok(Err(e)) => {
+                rep.violation(
+                    format!("reject-well-typed/{label}"),
+                    format!("{}: the program is accepted, but rejected after {label}: {e:?}", case.name),
+                    json!({"kind": "tc-mutant", "name": case.name, "edit": label, "mutant": reordered.print_to_string(None)}),
+                );
+            }
+            Err(e) => rep.violation(format!("check-panic/{label}"), format!("{}: {e:?}", case.name), json!({"kind": "tc-mutant", "name": case.name, "edit": label, "mutant": reordered.print_to_string(None)})),
         }
     }
     // (-) every single certainly-ill-typed edit must be rejected
